@@ -32,7 +32,7 @@ def _make(case, ctx):
     at = case.get("at")
     uri = path
     if at:
-        cooler.create_cooler(path, gen.bins_frame(table, extra={case.get("wname", "w"): [v + 1 for v in case["w"]]}),
+        cooler.create_cooler(path, gen.bins_frame(table, gen.DECOY_NAMES, extra={case.get("wname", "w"): [v + 1 for v in case["w"]]}),
                              gen.pixels_frame(gen.decoy_px(case["px"])), ordered=True, symmetric_upper=case["mode"] == "symm")
         uri = path + "::" + at
     bins = gen.bins_frame(table, extra={case.get("wname", "w"): case["w"]})       # the extra integer column, under any name
